@@ -48,10 +48,13 @@ def run(tier, rep):
     o = json.load(open(out))
     rep.add(evaluations=o["calls"], traces_validated_against_impl=o["rows"], distinct_nontrivial=o["rows"],
             rule="rows of the TLC-evaluated lattice (masses x N_active x input vector); every row distinct", exhaustive=not quick)
-    rep.cov.update({"rows_executed": o["rows"], "of_rows": len(rows), "function_calls": o["calls"]})
+    rep.cov.update({"rows_executed": o["rows"], "of_rows": len(rows), "function_calls": o["calls"], "semiactive_equivalence_worst": o.get("semiactive_worst")})
     for s in o["samples"]:
         rep.sample({"kind": "lattice row", **s})
     for v in o["violations"]:
+        if v["fn"].startswith("integrator "):
+            rep.violation("%s:%s" % (v["fn"], v["clause"][:40]), "%s %s: %s (difference %s)" % (v["fn"], json.dumps(v["row"]), v["clause"], v.get("got")), v)
+            continue
         rep.violation("%s:%s" % (v["fn"], v.get("component", v["clause"][:20])),
                       "reb_particles_transform_%s: %s fails for masses %s, N_active %s, input %s: body %s component %s got %s, specified %s"
                       % (v["fn"], v["clause"], v["row"]["m"], v["row"]["na"], ("unit vector e_%d" % (v["row"]["j"] - 1)) if v["row"]["j"] else "generic vector",
